@@ -27,7 +27,7 @@ import re
 
 from mc.gen import values as V
 
-READY = False
+READY = True
 LEVEL = "fault_enumeration"
 TECHNIQUE = "exhaustive enumeration of failure points (every truncation offset / substitution of the request text, every payload kind, every resolver fault placement and return value) x executor configurations, structural response-format oracle"
 LEVEL_TEXT = (
@@ -57,8 +57,8 @@ ASSUMPTIONS = [
     "json.dumps with its default ensure_ascii=True is the serialiser (lone surrogates from \\uD800-style escapes are representable)",
 ]
 BOUNDS = {
-    "quick": {"seeds": "all", "prefixes": "all", "substitutions": "12 characters x every offset", "deletions_insertions": "none", "fault_pairs": False},
-    "thorough": {"seeds": "all", "prefixes": "all", "substitutions": "12 characters x every offset", "deletions_insertions": "every offset (x 12 characters)", "fault_pairs": True},
+    "quick": {"seeds": "all", "prefixes": "all", "substitutions": "12 characters x every offset", "deletions_insertions": "none", "fault_pairs": False, "text_edit_configs": "blocking + asyncio"},
+    "thorough": {"seeds": "all", "prefixes": "all", "substitutions": "12 characters x every offset", "deletions_insertions": "every offset (x 12 characters)", "fault_pairs": True, "text_edit_configs": "all 6"},
 }
 TIME_CAP = {"quick": 300, "thorough": 1500}
 
@@ -702,13 +702,16 @@ def cases(tier):
         for off in range(len(seed)):
             for ch in SUBST:
                 if seed[off] != ch:
-                    yield {"k": "text", "text": seed[:off] + ch + seed[off + 1 :], "why": "subst"}
+                    c = {"k": "text", "text": seed[:off] + ch + seed[off + 1 :], "why": "subst"}
+                    if tier == "thorough":
+                        c["all_configs"] = True
+                    yield c
     if tier == "thorough":
         for seed in SEEDS:
             for off in range(len(seed)):
-                yield {"k": "text", "text": seed[:off] + seed[off + 1 :], "why": "delete"}
+                yield {"k": "text", "text": seed[:off] + seed[off + 1 :], "why": "delete", "all_configs": True}
                 for ch in SUBST:
-                    yield {"k": "text", "text": seed[:off] + ch + seed[off:], "why": "insert"}
+                    yield {"k": "text", "text": seed[:off] + ch + seed[off:], "why": "insert", "all_configs": True}
         for doc in VALID_FOR_FAULTS:
             for k1 in range(MAX_PATHS):
                 for k2 in range(k1 + 1, MAX_PATHS):
@@ -773,7 +776,7 @@ def evaluate(case, st=None):
     configs = CONFIGS
     as_document = False
     if k == "text":
-        if case.get("why") in ("subst", "delete", "insert"):
+        if case.get("why") in ("subst", "delete", "insert") and not case.get("all_configs"):
             configs = ("blocking", "asyncio")
     elif k == "fault":
         if text not in _PATHS:
@@ -783,7 +786,7 @@ def evaluate(case, st=None):
             return []
         plan = {paths[i]: f for i, f in zip(case["at"], case["faults"])}
         if len(case["at"]) > 1:
-            configs = ("blocking", "asyncio-coroutines", "threadpool")
+            configs = ("blocking", "default", "asyncio-coroutines", "threadpool")
     elif k == "fault-all":
         plan = {"*." + case["name"]: case["fault"]}
     elif k == "ret":
